@@ -8,6 +8,12 @@ ROOT = os.path.dirname(os.path.dirname(os.path.abspath(__file__)))
 TECH = 'bounded symbolic execution of the real code (symx: SymInt/SymBool proxies + z3 path feasibility, exhaustive DFS by re-execution); counterexamples replayed concretely'
 
 CHECKS = {
+    'C01': dict(
+        text='Soundness is decided as an inductive step over the real checker code (transpiled from rust/src/lib.rs on every run): from a symbolic valid state, one axiom-schema+Instantiate, ModusPonens, Generalization or Substitution instruction is executed symbolically (premise shapes by forking, all ids and operands symbolic); on every accepting path z3 searches for a finite model (carrier <= 2 quick / 3 thorough, arbitrary symbol and application tables) and valuation in which the premises are valid and the conclusion is not, instantiating the universally quantified premise valuations by counterexample-guided refinement. Schematic theorems are reduced to concrete steps by a commutation lemma (L-schema) checked on the real code, and all other opcodes are shown not to create proved terms (L-plumbing). A counterexample is rebuilt as gamma/claim/proof files and must be accepted by the rustc-built binary before it is reported.',
+        note='Trusted: z3, symx, rs2py (validated against the real binary in C05), vf/mlsem.py (finite-model semantics), the on-paper induction argument in DESIGN.md 5 C01. Bounds: premises <= 5/6 nodes, plugs <= 1/2, instantiation values <= 3/4 (axioms) and 1/2 (schemas), carriers <= 2/3.',
+        design='DESIGN.md 5 C01',
+        technique='bounded symbolic execution of the transpiled Rust checker (symx + z3) with semantic validity obligations over finite models decided by z3 (CEGIS over premise valuations); replay on the real binary',
+    ),
     'C05': dict(
         text='The Rust checker (re-transpiled from rust/src/lib.rs on every run and validated in the same run against the rustc-built binary on 4000+ streams, verdict and Debug state) and an independent implementation of docs/proof-language.md consume the same symbolic byte buffers: every byte of short streams, and one or two bytes of valid programs at every position (plus every truncation), are z3 variables; verdicts and final stack/memory/claims must agree on every feasible path. Behaviour the document leaves undefined is skipped and counted, not judged.',
         note='Trusted: z3, symx, rs2py (validated per run), vf/refm.py = my reading of the document with assumptions a1-a5 and unspecified cases u1-u3 listed in the evidence. Bounds: <= 3 (quick) / 6 (thorough) symbolic proof bytes, small gamma/claim prefixes, 1 (quick) / 2 (thorough) symbolic bytes in 6-7 valid programs.',
@@ -42,7 +48,6 @@ CHECKS = {
 }
 
 NOT_YET = {
-    'C01': 'check under construction in this session (rs2py transpiler + mlsem); not claimed until it runs',
     'C02': 'check under construction in this session; not claimed until it runs',
     'C03': 'check under construction in this session; not claimed until it runs',
     'C04': 'check under construction in this session; not claimed until it runs',
